@@ -500,7 +500,7 @@ def check_pipeline(flavor, trans, seq, coll):
                         ind = independent_translation(f, rec.seq, 11 if flavor == "P" else 1)
                         if f.qualifiers.get("translation", [""])[0] != ind:
                             viol.append("a.translation" + cds_class(tx))
-                    elif "translation" in f.qualifiers:
+                    elif not trans and "translation" in f.qualifiers:
                         viol.append("a.translation.unrequested")
     for fc in coll["feature_collections"]:
         strands = [f["strand"] for f in fc["feature_intervals"]]
